@@ -1118,6 +1118,92 @@ def journal_entry_acceptance(fns):
     return ob.result(it, witness="c03_journal_extent_at_device_end")
 
 
+def scan_epilogue(fns):
+    f = mir.find(fns, "::scan_and_rebuild_indexes", "src/core/store/recovery.rs")
+    ob = Ob("c04_scan_prologue_epilogue", "recovery scan outside its loop: the allocation journal is read and (unless read-only) REPLAYED before the first block is scanned; "
+            "after the loop the collected dead extents go through the journaled DiskIO::retire_extents (never raw writes) and only when not read-only; the journal "
+            "replay and the retirement are skipped entirely for a read-only open", "paths before the loop and after it (loop body skipped)", f)
+    t = f.text
+    hdr = None
+    # loop header as in scan_iteration
+    cands = []
+    inc = {}
+    for bb, st in f.blocks.items():
+        if bb in f.cleanup:
+            continue
+        for tg in re.findall(r"bb\d+", st[-1]):
+            inc.setdefault(tg, []).append(bb)
+    for tg, srcs in inc.items():
+        body = " ".join(f.blocks[tg])
+        m = re.search(r"(_\d+) = copy (_\d+); (_\d+) = Lt\(move \1, copy (_\d+)\); switchInt", body)
+        back = [x for x in srcs if int(x[2:]) > int(tg[2:])]
+        if back and m:
+            cands.append((len(back), tg))
+    if not cands:
+        raise mir.MirError("scan loop header not found")
+    hdr = sorted(cands, reverse=True)[0][1]
+    # (1) prologue: from bb0 up to the loop header
+    it = Interp(f, loop_bound=1, pure=PURE, max_paths=4000)
+    self_ = z3.Const("store", U)
+
+    def init(it_, st):
+        st["env"]["_1"] = self_
+    # FeoxStore.read_only: the first bool field of `self` consulted after read_allocation_journal
+    after = t[t.index("DiskIO::read_allocation_journal"):]
+    mro = re.search(r"\(\(\*_1\)\.(\d+): bool\)", after)
+    if not mro:
+        raise mir.MirError("read_only field not found")
+    ro = it.ctx.uf("proj__%s" % mro.group(1), [U], z3.BoolSort())(self_)
+    pro = 0
+    for p in it.run(init, stop=(hdr,), start="bb0"):
+        ob.paths += 1
+        if p.status != "backedge":
+            continue
+        pro += 1
+        rj = events(p, "DiskIO::read_allocation_journal")
+        rp = events(p, "DiskIO::replay_allocation_journal")
+        ob.must_hold(len(rj) == 1, "the allocation journal is read before the scan starts")
+        for e in rp:
+            ob.must_hold(bool(rj) and idx_of(p, rj[0]) < idx_of(p, e), "replay after reading the journal")
+            if rj:
+                ob.need(it, e.pc, okd(it, rj[0]), "replay only when the journal was decoded")
+            ob.need(it, e.pc, z3.Not(ro), "a read-only open never replays (writes) the journal")
+        ob.must_hold(not events(p, "DiskIO::retire_extents") and not events(p, "DiskIO::write_sectors_sync"), "no other device write before the scan")
+    ob.must_hold(pro >= 1, "the scan loop is reached from the prologue")
+    # (2) epilogue: enter at the header with the loop condition false
+    it2 = Interp(f, loop_bound=1, pure=PURE, max_paths=4000)
+    epi = 0
+    exit_bb = None
+    mm = re.search(r"switchInt\(move _\d+\) -> \[0: (bb\d+), otherwise: bb\d+\];", f.blocks[hdr][-1])
+    if not mm:
+        raise mir.MirError("loop exit edge not found")
+    exit_bb = mm.group(1)
+
+    def init2(it_, st):
+        st["env"]["_1"] = self_
+    for p in it2.run(init2, start=exit_bb):
+        ob.paths += 1
+        if p.status != "return":
+            continue
+        epi += 1
+        re_ = events(p, "DiskIO::retire_extents")
+        raw = events(p, "DiskIO::write_sectors_sync") + events(p, "DiskIO::retire_extents_unjournaled")
+        ob.must_hold(not raw, "repairs never bypass the journaled retirement path")
+        ret_ok, _ = it2.entails(p.pc, it2.ctx.disc(it2.as_u(p.ret)) == 0)
+        ro2 = it2.ctx.uf("proj__%s" % mro.group(1), [U], z3.BoolSort())(self_)
+        for e in re_:
+            ob.need(it2, e.pc, z3.Not(ro2), "a read-only open never retires extents")
+            if ret_ok:
+                ob.need(it2, p.pc, okd(it2, e), "the scan reports success only when the repairs were made durable")
+    ob.must_hold(epi >= 1, "the epilogue was reached")
+    ob.queries += it2.queries
+    return ob.result(it)
+
+
+def c04(fns, tier, env):
+    return finalize([site_replay_journal(fns), site_retire_extents(fns), scan_epilogue(fns), scan_iteration(fns)], env)
+
+
 def c03(fns, tier, env):
     return finalize([scan_iteration(fns), journal_entry_acceptance(fns), site_write_batch_protocol(fns)] + io_protocol(fns), env)
 
@@ -1908,6 +1994,15 @@ def scan_iteration(fns):
             ob.need(it, p.pc, end == s0 + dc[0].ret, "an accepted record is skipped as a whole extent (sector += sectors_needed)")
         if ups:
             ob.must_hold(bool(obs) and idx_of(p, obs[0]) < idx_of(p, ups[0]), "timestamp folded into the version clock before the index is updated")
+        # ---- repairs touch only dead extents: what may be queued for retirement in one iteration
+        rpush = [e for e in events(p, "Vec::push") if isinstance(e.args[1], mir.Tup) and len(e.args[1].fields) == 2
+                 and all(z3.is_bv(x) and x.size() == 64 for x in e.args[1].fields)]
+        if rpush and not obs:
+            # no record was accepted: the only repair is an incomplete retirement marker, queued as (sector, extent)
+            mk = events(p, "retirement_marker_token")
+            ob.must_hold(bool(mk), "without an accepted record only a retirement-marker extent can be queued for repair")
+            for e in rpush:
+                ob.need(it, p.pc, e.args[1].fields[0] == s0, "a repaired marker extent starts at the scanned sector")
         if not (obs and dc):
             continue
         # ---- newest-timestamp-wins and the accounting of the replaced generation
@@ -1923,6 +2018,9 @@ def scan_iteration(fns):
         if not ups:
             discarded += 1
             ob.need(it, p.pc, newer_exists, "a verified record is discarded only when an already indexed generation of its key has a NEWER timestamp")
+            for e in rpush:
+                ob.need(it, p.pc, z3.And(e.args[1].fields[0] == s0, e.args[1].fields[1] == dc[0].ret),
+                        "the loser queued for retirement is exactly the scanned record's own extent")
         else:
             ob.need(it, p.pc, z3.Not(newer_exists), "a record is indexed only when no indexed generation of its key is newer")
             subs_mem = [e for e in p.events if e.kind == "call" and "Atomic::<usize>::fetch_sub" in getattr(e, "raw", "")]
@@ -1939,8 +2037,14 @@ def scan_iteration(fns):
                     ob.must_hold(contains(e.args[1], ex), "the decrement is computed from the REPLACED generation (%s)" % getattr(e, "raw", "")[-28:])
                 rel = [e for e in events(p, "FreeSpaceManager::release_sectors") if idx_of(p, e) < idx_of(p, ups[0])]
                 ob.must_hold(bool(rel) and contains(rel[0].args[2], ex), "the replaced generation's extent length is released")
+                for e in rpush:
+                    ob.must_hold(contains(e.args[1].fields[1], ex), "the extent queued for retirement on a replace path is the REPLACED generation's")
+                    if rel:
+                        ob.need(it, p.pc, z3.And(e.args[1].fields[0] == rel[0].args[1], e.args[1].fields[1] == rel[0].args[2]),
+                                "the retired extent equals the released extent (sector and length)")
             elif fresh:
                 ob.must_hold(not subs_mem and not subs_disk and len(adds_cnt) == 1, "a new key: no decrement, record count + 1")
+                ob.must_hold(not rpush, "indexing a new key queues nothing for retirement")
             crs = events(p, "::calculate_record_size")
             if adds_mem and crs:
                 ob.need(it, p.pc, adds_mem[-1].args[1] == crs[-1].ret, "memory_usage += calculate_record_size of the indexed record")
